@@ -65,6 +65,12 @@ def _class_job(args):
     Uq, s, Vq = Q.classical_qsvd_full(Aq.copy())
     measure(rec, "classical_qsvd_full", S.degenerate_full(st), detail, A, q_to_float(Uq), np.asarray(s), q_to_float(Vq),
             sv, None, None, True)
+    # the same class scaled by an exact power of two (tiny / huge magnitudes)
+    e = (-200, -60, 60, 200)[(m + 2 * n + len(str(st["s"]))) % 4]
+    As = A * 2.0 ** e
+    Uq, s, Vq = Q.classical_qsvd_full(q_from_float(As))
+    measure(rec, "classical_qsvd_full", S.degenerate_full(st), dict(detail, scaled_by_pow2=e), As, q_to_float(Uq), np.asarray(s),
+            q_to_float(Vq), [v * 2.0 ** e for v in sv], None, None, True)
     for R in range(1, min(m, n) + 1):
         Uq, s, Vq = Q.classical_qsvd(Aq.copy(), R)
         cls = "degenerate-spectrum" if degenerate_trunc(sv, m, n, R) else "simple-spectrum"
